@@ -14,6 +14,8 @@ BUDGET = {'quick': 80, 'thorough': 900}
 N = {'quick': 2500, 'thorough': 30000}
 FAMILIES = [('chain', 25), ('indep', 35), ('d4', 38)]
 selftest = opcommon.selftest_birds
+HARD_TIMEOUT = 400
+SOFT_TIMEOUT = 300
 
 
 def cases(tier, seed):
